@@ -859,6 +859,14 @@ where
             }
             plans.push((format!("cancel@{},{}", a, b), vec![a, b], true));
         }
+        // cancelling errors on two polynomials opened under ONE point label (one `check` call sees both)
+        if let Some((_, gpt, glabels)) = group(&qs).into_iter().find(|g| g.2.len() >= 2) {
+            let a = keys.iter().position(|k| k.0 == glabels[0] && k.1 == gpt);
+            let b = keys.iter().position(|k| k.0 == glabels[1] && k.1 == gpt);
+            if let (Some(a), Some(b)) = (a, b) {
+                plans.push((format!("cancel-same-point@{},{}", a, b), vec![a, b], true));
+            }
+        }
         for (pname, positions, cancel) in plans {
             let id = format!("{}/{}", id0, pname);
             let mut ev2 = ev.clone();
